@@ -16,6 +16,7 @@ import (
 // c05Tables is the catalogue of pattern sets (DESIGN Appendix D).
 var c05Tables = [][]string{
 	{"/a/:id", "/a/:id/b", "/f/*w", "/s"},
+	{"/*w", "/:p/m"},
 	{"/:a", "/:a/:b", "/x/y"},
 	{"/a/b", "/a/:p", "/a/:p/c", "/ab"},
 	{"/r/x=:p", "/r/x=:p/y", "/r/:q"},
@@ -271,6 +272,80 @@ func VerifC05Order() {
 				zv.Assert("order-same-param-name", r1.params[k].Name == r2.params[k].Name)
 				zv.Assert("order-same-param-value", zv.StrEq(r1.params[k].Value, r2.params[k].Value))
 			}
+		}
+	}
+}
+
+// ---- realistic tables, paths around their patterns ----
+
+// c05Rest: tables shaped like API route sets (longer literals, shared prefixes,
+// parameters in the middle); looked-up paths are a pattern cut at any byte
+// (placeholders instantiated by "v") followed by arbitrary bytes: prefixes,
+// overruns and near misses of registered routes.
+var c05Rest = [][]string{
+	{"/tags/:tag/files/:name", "/orders", "/users/:id"},
+	{"/api/teams/:t", "/api/teams/:t/members/:m", "/api/team", "/api/*rest"},
+	{"/v1/pets", "/v1/pets/:id", "/v1/pets/:id/owner", "/v1/petstore"},
+	{"/files/:name/meta", "/files/*path", "/file"},
+	{"/a/b/c/d", "/a/b/:x/d", "/a/:y/c/e", "/:z/b/c/f"},
+	{"/networks/:owner/:repo/events", "/orgs/:org/events", "/notifications/threads/:id", "/notifications"},
+}
+
+// c05Instance instantiates every placeholder of pat with "v" (wildcards too).
+func c05Instance(pat string) string {
+	out := ""
+	for k := 0; k < len(pat); {
+		if c05IsParamStart(pat, k) || (pat[k] == '*' && k > 0 && pat[k-1] == '/') {
+			for k < len(pat) && pat[k] != '/' {
+				k++
+			}
+			out += "v"
+			continue
+		}
+		out += pat[k : k+1]
+		k++
+	}
+	return out
+}
+
+// VerifC05Around: soundness, completeness and totality for paths around the
+// registered routes of realistic tables.
+func VerifC05Around() {
+	tbl := c05Rest[zv.Choose("table", zv.Param("rest", len(c05Rest)))]
+	rt := zv.Cached("c05-rest-"+tbl[0], func() interface{} { return c05Build(tbl, 0) }).(*Router)
+	inst := c05Instance(tbl[zv.Choose("pattern", len(tbl))])
+	cut := zv.Choose("cut", len(inst)+1)
+	path := inst[:cut] + zv.String("tail", zv.Param("taillen", 1))
+	reserved := c05Reserved(path)
+	res := c05Lookup(rt, path)
+	zv.AssertExcept("around-lookup-never-panics", !res.panicked, reserved, "KF-C05-reserved-bytes")
+	if res.panicked {
+		return
+	}
+	nonEmptyInst := false
+	for _, pat := range tbl {
+		if m := c05Ref(pat, path); m.ok && allNonEmptyVals(m) {
+			nonEmptyInst = true
+		}
+	}
+	if !res.found {
+		zv.Reach("around-not-found")
+		zv.AssertExcept("around-complete", !nonEmptyInst, reserved, "KF-C05-reserved-bytes")
+		return
+	}
+	zv.Reach("around-found")
+	pat, isStr := res.data.(string)
+	zv.Assert("around-value-is-a-registered-pattern", isStr)
+	m := c05Ref(pat, path)
+	zv.AssertExcept("around-sound-pattern-instantiated", m.ok, reserved, "KF-C05-reserved-bytes")
+	if !m.ok {
+		return
+	}
+	zv.AssertExcept("around-sound-param-count", len(res.params) == len(m.names), reserved, "KF-C05-reserved-bytes")
+	if len(res.params) == len(m.names) {
+		for k := range m.names {
+			zv.Assert("around-sound-param-name", res.params[k].Name == m.names[k])
+			zv.AssertExcept("around-sound-param-value", zv.StrEq(res.params[k].Value, m.values[k]), reserved, "KF-C05-reserved-bytes")
 		}
 	}
 }
